@@ -7,6 +7,7 @@ use serde_json::Value;
 fn once(case: &Value, run: &Run) -> Acc {
     match case["kind"].as_str().unwrap_or("") {
         "edge" => crate::checks::nodelist::replay_edge(case, run),
+        "path-history" => crate::checks::nodelist::replay_path_history(case, run),
         "query" => crate::checks::common::replay_query(case, run),
         "parse" | "parse-eval" => crate::checks::lang::replay(case, run),
         "ladder" => crate::checks::robust::replay_ladder(case, run),
@@ -18,6 +19,7 @@ fn once(case: &Value, run: &Run) -> Acc {
         "schedule" => crate::checks::purity::replay_schedule(case, run),
         "history" => crate::checks::purity::replay_history(case, run),
         "free-running" => crate::checks::purity::replay_free_running(case, run),
+        "kept-query" => crate::checks::purity::replay_kept_query(case, run),
         "update-history" => crate::checks::purity::replay_update_history(case, run),
         "static" => crate::checks::purity::replay_static(case, run),
         "entry-points" => {
@@ -35,6 +37,7 @@ fn once(case: &Value, run: &Run) -> Acc {
             acc.viol(format!("compositional parsing of {} must be inspected by hand (see the message in the replay file)", q), case.clone());
             acc
         }
+        "query-kept" => crate::checks::ext::replay_kept(case, run),
         "ext" => crate::checks::ext::replay(case, run),
         "query-plain" => crate::checks::common::replay_plain(case, run),
         k => {
